@@ -39,7 +39,7 @@ ParseDemands(e, r) ==
     <<"C09.value",    (IsOk(r) /\ e.ok) => Dt(e.v) = r.v>>,
     <<"C09.reject",   IsFail(r) => ~e.ok>>,
     <<"C09.zero",     (IsFail(r) /\ ~e.ok /\ ~e.panic) => e.zero>>,
-    <<"C09.typed",    (IsFail(r) /\ ~e.ok /\ ~e.panic) => e.typed>>,
+    <<"C09.typed",    (IsFail(r) /\ ~e.ok) => e.typed>>,
     <<"C09.sentinel", (IsFail(r) /\ ~e.ok /\ ~e.panic /\ r.req # {"ErrInputTooLong"}) => SentinelsOK(r, e.is)>>,
     <<"C18.toolong",  (IsFail(r) /\ ~e.ok /\ ~e.panic /\ r.req = {"ErrInputTooLong"}) => SentinelsOK(r, e.is)>>,
     <<"C18.noecho",   (IsFail(r) /\ r.req = {"ErrInputTooLong"}) => ~e.echo>>
@@ -69,6 +69,7 @@ BinDemands(e) ==
     <<"C11.noerr",  e.ok>>,
     <<"C11.layout", e.out = BinEncode(a)>>,
     <<"C11.len7",   Len(e.out) = 7>>,
+    <<"C11.stable", e.out2 = BinEncode(a)>>,      \* again after the caller overwrote the first result
     <<"C11.back",   e.back = <<1, a.y, a.m, a.d>> >>
   >>
 
